@@ -35,7 +35,10 @@ TABLE = [
     (('C08',), 'mistral.engine.policies._fail_task_if_incomplete', 'complete_task',
      []),
     (('C04', 'C01', 'C12', 'C11'), 'mistral.engine.task_handler._check_affected_tasks', 'find_indirectly_affected_task_executions',
-     [('states.is_completed(task.task_ex.workflow_execution.state)', False), ('task.is_completed()', True)]),
+     [('states.is_completed(task.task_ex.workflow_execution.state)', False), ('task.is_completed()', True),
+      # the same test spelled through the predicate (Task.is_completed is
+      # states.is_completed(self.task_ex.state))
+      ('states.is_completed(task.task_ex.state)', True)]),
     (('C04', 'C01', 'C12'), 'mistral.engine.task_handler._check_affected_tasks', 'register_operation',
      []),
     (('C04', 'C01', 'C12'), 'mistral.engine.task_handler._check_affected_tasks.<locals>._schedule_if_needed', '_schedule_refresh_task_state',
